@@ -243,6 +243,14 @@ def run(ctx):
     ctx.run_given('long', longs, prop_long, ctx.n(20, 150))
     if ctx.failures:
         return          # the command line reads real files without a read budget: not on a tree that already fails
+    # a few fixed command lines in every run: thread 0, pid-like and absent threads, each alone and with class filters
+    fixed = []
+    for i, tid in enumerate([0, 0, TIDS[0], 0x99, 2 ** 40, 0x77]):
+        recs = [kmodel.record(1000 + 7 * k, bytes([k + 1]) * 32, [0, TIDS[0], 0x99, 2 ** 40, TIDS[1]][k % 5], (CLASSES[k % len(CLASSES)] << 24) | 0x10000 | (4 * k)) for k in range(12)]
+        fixed.append({'version': 2, 'traces_first': False, 'terminate_at': None if i % 2 else i, 'show_tid': [None, True, False][i % 3], 'radix': i % 3,
+                      'spec': {'tm': [[TIDS[0], 5, b'p', b'']], 'pad': 0, 'recs': recs, 'is64': 1, 'tick': 0, 'fill': 0},
+                      'config': {'tid': tid, 'classes': [] if i % 2 == 0 else [CLASSES[i]], 'subclasses': [], 'as_tuple': False, 'in_place': False, 'process': None, 'process_kind': 'name'}})
+    ctx.run_enum('cli', fixed, prop_cli, exhaustive_label='six fixed command lines (thread 0, present, absent and huge thread ids)')
     extra = {'show_tid': st.sampled_from([None, False, True]), 'radix': st.integers(0, 2)}
     for base, n in ((v2, ctx.n(60, 300)), (v3, ctx.n(80, 400))):
         ctx.run_given('cli', st.tuples(base, st.fixed_dictionaries(extra)).map(lambda t: {**t[0], **t[1]}), prop_cli, n)
